@@ -67,11 +67,12 @@ func (e *envB) addCand(i int, late bool, sig, msg string) {
 }
 
 type envB struct {
-	c   *CaseB
-	tmp string
-	tgt string
-	m   *rm.Model
-	rc  *regclient.RegClient
+	c    *CaseB
+	tmp  string
+	tgt  string
+	tgtS string // spelling of the layout path in every reference
+	m    *rm.Model
+	rc   *regclient.RegClient
 
 	closeRef ref.Ref
 	closeAt  map[int]bool
@@ -168,7 +169,8 @@ func setupB(c *CaseB) (*envB, error) {
 	for _, k := range c.CloseAt {
 		e.closeAt[k] = true
 	}
-	e.closeRef, err = ref.New("ocidir://" + e.tgt + ":c0")
+	e.tgtS = spell(e.tgt, c.PathForm)
+	e.closeRef, err = ref.New("ocidir://" + e.tgtS + ":c0")
 	if err != nil {
 		return nil, err
 	}
@@ -287,7 +289,7 @@ func (e *envB) runCopy(ctx context.Context, i int) {
 	if err != nil {
 		panic(fmt.Sprintf("harness: source ref: %v", err))
 	}
-	tgt, err := ref.New("ocidir://" + e.tgt + ":" + copyTag(i))
+	tgt, err := ref.New("ocidir://" + e.tgtS + ":" + copyTag(i))
 	if err != nil {
 		panic(fmt.Sprintf("harness: target ref: %v", err))
 	}
